@@ -51,6 +51,18 @@ Theorem vycore_map_frame :
 Proof. split; [exact mlook_mset_same|]. split; [exact mlook_mset_other|]. reflexivity. Qed.
 Print Assumptions vycore_map_frame.
 
+(* shifts (uint256 / int256) never revert: << is a * 2^b reduced into the type's range modulo 2^bits, >> is the floor of
+   a / 2^b (arithmetic for negative a), and a shift by >= bits gives 0 (-1 for a negative value shifted right) *)
+Theorem vycore_shift_exact :
+  (forall bits sg a b, 0 < bits -> 0 <= b < bits ->
+     in_range bits sg (shift_val true bits sg a b) = true /\ (shift_val true bits sg a b - a * 2 ^ b) mod 2 ^ bits = 0) /\
+  (forall bits sg a b, 0 <= b < bits -> in_range bits sg a = true ->
+     shift_val false bits sg a b = a / 2 ^ b /\ in_range bits sg (shift_val false bits sg a b) = true) /\
+  (forall bits sg a b, bits <= b ->
+     shift_val true bits sg a b = 0 /\ shift_val false bits sg a b = (if a <? 0 then -1 else 0)).
+Proof. split; [exact shl_spec|]. split; [exact shr_spec | exact shift_saturates]. Qed.
+Print Assumptions vycore_shift_exact.
+
 (* Bytes: slice yields exactly the window [start, start+len) of its argument when it lies inside, and fails otherwise;
    concat appends *)
 Theorem vycore_bytes_exact : forall P ce,
@@ -94,6 +106,8 @@ Example vycore_nonvacuous :
   call_ext (fuel_bound demo) demo (mkCenv 0 0) 0 [VInt 5] (init_sto demo) [] <> XRevert /\
   call_ext (fuel_bound demo) demo (mkCenv 0 0) 0 [VInt 200] (init_sto demo) [] = XRevert /\
   arith Div 8 true (-128) (-1) = None /\ arith Mod 8 true (-7) 2 = Some (-1) /\
+  arith Pow 256 true (-2) 255 = Some (- 2 ^ 255) /\ arith Pow 256 true (-2) 256 = None /\ arith Pow 8 false 1 (2 ^ 200) = Some 1 /\
+  shift_val true 256 true (2 ^ 254) 1 = - 2 ^ 255 /\ shift_val false 256 true (-8) 300 = -1 /\
   (* a nested HashMap path: m[5][-1] := 7 leaves m[5][0] and m[6][-1] at the default *)
   (match set_path [5; -1] (VInt 7) (zero_of (TMap (TInt 256 false) (TMap (TInt 8 true) (TInt 256 false)))) with
    | Some v' => get_path [5; -1] v' = Some (VInt 7) /\ get_path [5; 0] v' = Some (VInt 0) /\ get_path [6; -1] v' = Some (VInt 0)
